@@ -71,6 +71,8 @@ type Bed struct {
 	// hook listeners
 	hmu   sync.Mutex
 	hooks []func(point string, args ...interface{})
+
+	tainted bool
 }
 
 var current atomic.Value // *Bed receiving vhook events
@@ -87,6 +89,39 @@ func init() {
 		}
 	})
 }
+
+var shared *Bed
+
+// Fresh returns the worker's bed with an empty store: the stand-ins and the server
+// incarnation are reused across cases (connection churn would otherwise exhaust the
+// loopback ports), all documents, logs, plans and hook listeners are wiped.
+func Fresh() (*Bed, error) {
+	if shared == nil || shared.tainted {
+		if shared != nil {
+			shared.reallyClose()
+		}
+		b, err := New()
+		if err != nil {
+			return nil, err
+		}
+		shared = b
+		return b, nil
+	}
+	b := shared
+	if !b.Idle(10 * time.Second) {
+		b.reallyClose()
+		shared = nil
+		return Fresh()
+	}
+	b.DB.Reset()
+	b.MQ.Reset()
+	b.ClearHooks()
+	return b, nil
+}
+
+// Taint marks the bed as not reusable (a case left it in an unknown state: restarted
+// incarnations, leaked locks, held gates).
+func (b *Bed) Taint() { b.tainted = true }
 
 // New creates a fresh store and starts the first server incarnation.
 func New() (*Bed, error) {
@@ -132,8 +167,24 @@ func (b *Bed) Restart() error {
 	return nil
 }
 
-// Close releases the stand-ins.
+// Close ends a case's use of the bed; a shared bed stays up for the next case.
 func (b *Bed) Close() {
+	if b == shared && !b.tainted {
+		return
+	}
+	b.reallyClose()
+	if b == shared {
+		shared = nil
+	}
+}
+
+func (b *Bed) reallyClose() {
+	if b.Mgr != nil && b.Mgr.Mongo != nil {
+		func() {
+			defer func() { recover() }()
+			b.Mgr.Mongo.Close(octx.NewOrdaContext(context.TODO(), "bed"))
+		}()
+	}
 	b.DB.Close()
 	b.MQ.Close()
 }
